@@ -76,8 +76,8 @@ def gen_trial(meta, rng, nthreads, maxops=7, tiny=False):
                 hi = rng.choice([lo, lo + 1, lo + 2, INF])
                 if lo == 0 and hi == 0:
                     hi = 1
-                if rng.random() < 0.04 and lo > 0:
-                    hi = lo - 1
+                if rng.random() < (0.12 if s['nq'] else 0.03) and lo > 0:
+                    hi = lo - 1      # inverted run-time bounds: the statement throws; after IN_SEQUENCE the half-built expectation is torn down again
                 p['lo'], p['hi'] = lo, hi
                 if s['nq'] >= 1:
                     sq = rng.sample([3, 4], s['nq'])
